@@ -135,7 +135,7 @@ pub fn step(ctx: &Ctx, w: &World, ev: &mut Ev) {
                     // the same in cw20 and native worlds
                     let realised = pnl(pos.dir, class.q_close, pos.notional).unwrap_or(0);
                     let equity = pos.margin as i128 + realised - f;
-                    let fees = ctx.inflow(&ifund) as i128 + ctx.inflow(&w.addrs.fee_pool) as i128;
+                    let fees = ctx.inflow(&ifund) as i128 + ctx.inflow(&ctx.pre.eng.as_ref().map(|e| e.fee_pool.clone()).unwrap_or_else(|| w.addrs.fee_pool.clone())) as i128;
                     let paid_total = -ctx.delta(&actor);
                     let new_margin = post.as_ref().map(|p| p.margin as i128).unwrap_or(0);
                     if equity < 0 {
